@@ -122,10 +122,10 @@ func (s *serviceDiscovery) StartHeartbeat() {
 					tempLeaderService := s.leaderService
 
 					if err := s.ReassignLeader(); err != nil {
+						// keep the leader service when it is still the same one: the next round
+						// reconnects and registers again once the leader is reachable
 						if tempLeaderService != s.leaderService {
 							_ = tempLeaderService.Client.Close()
-						} else {
-							s.RemoveLeader()
 						}
 					}
 				}
